@@ -206,6 +206,21 @@ def progress_rule(ctx, rid):
         rr.bad(ctx.finding(rid, f, f.node, "is_ready_to_reap answers %s with %d finished results and %d sown batches (expected %s): ready-to-reap must be true exactly when at least one batch exists and none is missing" % bad_pt[2:3] + bad_pt[:2] + bad_pt[3:] if False else
                            "is_ready_to_reap answers %s with %d finished results and %d sown batches (expected %s): ready-to-reap must be true exactly when at least one batch exists and none is missing" % (bad_pt[2], bad_pt[0], bad_pt[1], bad_pt[3]),
                            construct="ready-formula"), "ready formula")
+    # calc_progress itself re-reads the persisted batch numbers (a Crop created before another process sowed must not answer from stale numbers)
+    cp_ = crop.methods.get("calc_progress")
+    need(cp_ is not None, "anchor lost: Crop.calc_progress")
+    gcp = build_cfg(cp_.node)
+    ctx.touch(cp_, gcp)
+    syncs = [n for n, c, nm in all_calls(ctx, cp_, gcp) if nm == CROP + ".Crop._sync_info_from_disk"]
+    counts = [n for n in gcp.nodes if n.kind == "stmt" and isinstance(n.ast, ast.Assign) and norm(n.ast.targets[0]) in ("self._num_results", "self._num_sown_batches") and not isinstance(n.ast.value, (ast.Constant, ast.UnaryOp))]
+    need(counts, "idiom changed: calc_progress does not count results / batches")
+    if syncs and all(any(gcp.completes_before(s_.id, c_.id) for s_ in syncs) for c_ in counts):
+        rr.ok("calc_progress syncs the persisted batch numbers from disk before it counts")
+    elif not syncs:
+        rr.bad(ctx.finding(rid, cp_, cp_.node, "calc_progress no longer re-reads the crop's settings (_sync_info_from_disk): a Crop object created before the crop was (re)sown answers progress queries with stale num_batches / batchsize, e.g. missing_results() over the wrong range",
+                           construct="progress-no-sync"), "progress syncs")
+    else:
+        raise AnalysisError("idiom changed: order of sync and counting in calc_progress")
     # grow_missing grows exactly the missing ones, with this crop
     gm = crop.methods.get("grow_missing")
     gr = crop.methods.get("grow")
